@@ -51,7 +51,7 @@ def run(ctx):
     I = load_impl(ctx)
     rng = ctx.rng
     q = ctx.tier == "quick"
-    n_cases = 40 if q else 400
+    n_cases = 8 if q else 30         # per worker process (quick: 4 workers, thorough: 8)
     for it in range(n_cases):
         n_units = rng.randint(1, 5 if q else 6) if it % 9 == 8 else rng.randint(2, 5 if q else 6)
         n_rows = rng.randint(1, 5)
@@ -143,7 +143,7 @@ def run(ctx):
             ctx.mismatch("model could not build the oracle", case, model=ans, failing_input=False, broken="corr:Ds.Oracle.build")
         ctx.case(case, nontrivial=(shared and len(positive_tallies) >= 3), sample=case, units=n_units, K=K, maxw=maxw)
         ctx.maxi(units=n_units, rows=n_rows, K=K, queries=len(queries))
-        if ctx.elapsed() > (100 if q else 900):
+        if ctx.elapsed() > (600 if q else 2400):
             break
     return ctx.finish("proof", "C09_*: ADD restrict/sum/modelcount semantics (proved for every diagram) composed into the statement that the oracle's dictionary is the "
                       "by-definition coalition count; construction invariants of compile (LocSpec/WF) are checked per generated case. This run compared every query "
